@@ -13,6 +13,8 @@ LenNots == {"deg", "arcmin", "arcsec", "rad"}
 LenNots1 == LenNots \cup {"asecq", "aminq"}          \* the quote forms only as a single length
 Lon(n) == CASE n \in {"deg", "plain"} -> 150250 [] n = "rad" -> 2622357 [] n \in {"hms", "colon"} -> 36060000        \* 150.25 deg = 10h01m00s
 Lat(n) == CASE n \in {"deg", "plain"} -> -20500 [] n = "rad" -> -357792 [] n = "dots" -> -73800000                  \* -20.30.00.000
+Lon2(n) == CASE n \in {"deg", "plain"} -> 150000 [] n = "rad" -> 2617994 [] n \in {"hms", "colon"} -> 36000000                  \* 150 deg = 10h00m00s
+Lat2(n) == CASE n \in {"deg", "plain"} -> -19500 [] n = "rad" -> -340339 [] n = "dots" -> -70200000                            \* -19.30.00.000
 Ln(n, j) == CASE n = "deg" -> 15 * j [] n = "rad" -> 262 * j [] n \in {"arcmin", "aminq"} -> 900 * j [] n \in {"arcsec", "asecq"} -> 54000 * j
 Frames == {"J2000", "B1950", "ICRS", "GALACTIC", "SUPERGAL", "ECLIPTIC"}
 LexLines ==
@@ -28,6 +30,14 @@ LexLines ==
     {Line("", FALSE, "line", <<T("deg", 150250), T("deg", -20500), T("deg", 151000), T("deg", -20000)>>, [coord |-> "ICRS"])},
     {Line("", FALSE, "symbol", <<T("deg", 150250), T("deg", -20500)>>, [coord |-> "J2000", symsize |-> "2"])},
     {Line("", TRUE, "text", <<T("deg", 150250), T("deg", -20500)>>, [coord |-> "J2000"])},
+    (* an explicit label on a text region is kept: it is not replaced by the text *)
+    {Line("", FALSE, "text", <<T("deg", 150250), T("deg", -20500)>>, [coord |-> "J2000", text |-> "NGC 1234", label |-> "source A"])},
+    (* every vertex carries its own notation *)
+    {Line("", FALSE, "poly", <<T(a, Lon(a)), T(b, Lat(b)), T("deg", 151000), T("deg", -20000), T(c, Lon2(c)), T(d, Lat2(d))>>, [coord |-> "J2000"]) :
+        a \in LonNots, c \in LonNots, b \in LatNots, d \in LatNots},
+    {Line("", FALSE, "line", <<T(a, Lon(a)), T(b, Lat(b)), T(c, Lon2(c)), T(d, Lat2(d))>>, [coord |-> "GALACTIC"]) : a \in LonNots, c \in LonNots, b \in LatNots, d \in LatNots},
+    {Line(sg, FALSE, "poly", <<T("pix", 12500), T("pix", 3000), T("pix", 20000), T("pix", 3500), T("pix", 14250), T("pix", 9000)>>, NoProps) : sg \in {"", "-"}},
+    {Line("", FALSE, "line", <<T("pix", 12500), T("pix", 3000), T("pix", 20000), T("pix", 9500)>>, NoProps)},
     {Line(sg, FALSE, "circle", <<T("pix", 12500), T("pix", 3000), T("pix", 4250)>>, NoProps) : sg \in {"", "-"}},
     {Line("", FALSE, "rotbox", <<T("pix", 12500), T("pix", 3000), T("pix", 6000), T("pix", 2000), T("deg", 30000)>>, NoProps)} }
 StateLines == { Global([coord |-> "J2000"]), Global([coord |-> "GALACTIC", color |-> "green"]), Global([color |-> "red", linewidth |-> "2"]),
@@ -54,6 +64,7 @@ Pool == {
   U("line", "fk5", Sky \o <<V("mas", 541800000), V("mas", -72000000)>>, <<>>, NoAng, TRUE, "reg", NoProps),
   U("point", "fk5", Sky, <<>>, NoAng, FALSE, "reg", [symbol |-> "*"]),
   U("text", "icrs", Sky, <<>>, NoAng, TRUE, "ann", [text |-> "Hello there"]),
+  U("text", "fk5", Sky, <<>>, NoAng, TRUE, "reg", [text |-> "NGC 1234", label |-> "source A"]),
   U("circle", "image", Pix, <<V("mpix", 4250)>>, NoAng, FALSE, "reg", [label |-> "p"]),
   U("rectangle", "image", Pix, <<V("mpix", 6000), V("mpix", 2000)>>, V("mas", 108000000), TRUE, "reg", NoProps),
   U("ellipse", "image", Pix, <<V("mpix", 6000), V("mpix", 2000)>>, V("mas", 162000000), FALSE, "ann", NoProps),
